@@ -455,6 +455,9 @@ func contractText(c *Contract) string {
 		for _, cl := range l.Invariants {
 			sb.WriteString(cl.Text + "\n")
 		}
+		if l.Decreases != nil {
+			sb.WriteString(l.Decreases.Text + "\n")
+		}
 	}
 	for _, l := range c.Lets {
 		sb.WriteString(l.Text + "\n")
